@@ -122,7 +122,11 @@ func symOf(v ssa.Value) (string, bool) {
 					if s, ok := symOf(a); ok {
 						args = append(args, s)
 					} else if c, ok := a.(*ssa.Const); ok {
-						args = append(args, c.Value.ExactString())
+						if c.Value == nil {
+							args = append(args, "nil")
+						} else {
+							args = append(args, c.Value.ExactString())
+						}
 					} else {
 						return "", false
 					}
